@@ -118,12 +118,13 @@ def execute_and_validate(ctx, sched_file, tag, backends="memory,sqlite", referen
     return res, info
 
 
-def drive_and_validate(ctx, tag, profile, n, ops, seed, ids=6, backends="memory,sqlite", reference=False, big_every=0, shards=None):
+def drive_and_validate(ctx, tag, profile, n, ops, seed, ids=6, backends="memory,sqlite", reference=False, big_every=0, churn_every=0, shards=None):
     shards = shards or vf.NCPU
     out = os.path.join(ctx.shm, "trace-" + tag)
     sched = os.path.join(ctx.scratch, "sched-" + tag + ".ndjson")
     args = ["l0-drive", "-seed", str(seed), "-n", str(n), "-ops", str(ops), "-ids", str(ids), "-backends", backends,
-            "-profile", profile, "-out", out, "-sched", sched, "-shards", str(shards), "-big-every", str(big_every), "-scratch", ctx.shm]
+            "-profile", profile, "-out", out, "-sched", sched, "-shards", str(shards), "-big-every", str(big_every), "-churn-every", str(churn_every),
+            "-scratch", ctx.shm]
     if reference:
         args.append("-reference")
     info = json.loads(vf.hkv(args).strip().splitlines()[-1])
